@@ -56,6 +56,11 @@ CHECKS["C13"] = dict(
    text="History search with a snapshot oracle: generated interleavings of AddData/RemoveData/ApplySubsetState/ApplyROI (all edit modes, generated edit-subset choices), undo, redo and runs of more than 50 commands execute on a real Session; after each undo the observable session state (datasets, groups with label/style/per-dataset masks, per-dataset subsets, edit-subset choice, can_undo_redo) must equal the snapshot taken before the command, after each redo the one taken after it; redo after a new command must raise, the history bound must hold.",
    note="Trusted: the snapshot function; dataset order not compared; labels/colours not compared after a redo re-creates a group; edit mode fixed per history.",
    ref="DESIGN.md section 4 C13")
+CHECKS["C14"] = dict(
+   technique="property-based differential testing (Hypothesis): generated expression trees / function links / parsed text expressions vs. numpy evaluation; op-list histories vs. a dependency-graph model",
+   text="Generated-input search with explicit oracles: arithmetic expression trees over stored, pixel, world and earlier derived attributes with constants on either side, user-function links (vectorised, ravel-returning, constant-returning) and parsed text expressions are read whole and through every view form and must equal the same expression evaluated with numpy on the inputs' full arrays (shape and NaN-equal values); histories of add/remove/update_id must remove exactly the transitive dependents and keep every other value and the component order.",
+   note="Trusted: numpy/Python operators as the expression semantics; input values are read from the dataset itself; exponents restricted to {2,3,-1}.",
+   ref="DESIGN.md section 4 C14")
 NOT_APPLICABLE = []
 
 def main():
